@@ -352,6 +352,22 @@ func TestVerifSpecAgainstAnnotations(t *testing.T) {
 				}
 				out["parameters "+key] = fmt.Sprint(ps)
 				out["requestBody "+key] = fmt.Sprint(dig(op, "requestBody") != nil, dig(op, "requestBody", "required") == true)
+				if cm, ok := dig(op, "requestBody", "content").(map[string]any); ok {
+					// the body's media types and, for each, the shape of its schema
+					for ct, media := range cm {
+						sc := dig(media, "schema")
+						var props []string
+						if m, ok := dig(sc, "properties").(map[string]any); ok {
+							for k, pv := range m {
+								props = append(props, fmt.Sprintf("%s:%v:%v", k, dig(pv, "type"), dig(pv, "$ref")))
+							}
+						}
+						sort.Strings(props)
+						req := strs(dig(sc, "required"))
+						sort.Strings(req)
+						out["requestBodySchema "+key+" "+ct] = fmt.Sprintf("type=%v ref=%v properties=%v required=%v", dig(sc, "type"), dig(sc, "$ref"), props, req)
+					}
+				}
 				var codes []string
 				if rs, ok := dig(op, "responses").(map[string]any); ok {
 					for c := range rs {
